@@ -74,10 +74,12 @@ def load(file):
 
 
 def recursor_bodies(file):
-    """read SequentialRecursor::{unary,binary,ternary,subst} from recursor.rs"""
+    """read every method of `impl Recursor<M> for SequentialRecursor` from recursor.rs"""
     src, m = load(file)
+    imp = X.locate(src, m, ['impl:Recursor<M>~for~SequentialRecursor'], file)
     res = {}
-    for meth in ('unary', 'binary', 'ternary', 'subst'):
+    for mm in re.finditer(r'\bfn\s+(\w+)\b', m[imp.body_open:imp.body_close]):
+        meth = mm.group(1)
         it = X.locate(src, m, ['impl:Recursor<M>~for~SequentialRecursor', 'fn:' + meth], file)
         hm = X.mask(it.header)
         k = hm.find('(')
@@ -110,7 +112,7 @@ def apply_rules(text, opts, counts, recursor_file):
     run('R2', X.r2_stat)
     run('R3', X.r3_debug_assert)
     run('R4', X.r4_or_guard)
-    if recursor_file and re.search(r'\.\s*(unary|binary|ternary|subst)\s*\(', X.mask(text)):
+    if recursor_file:
         run('R5', X.r5_recursor, recursor_bodies(recursor_file))
     run('R11', X.r11_slice_pat)
     run('R12', X.r12_const_block)
